@@ -143,6 +143,9 @@ BLAKE2_CTX = [
 
 
 def check_all_blake2_keyed(ctx, P, which=("new_keyed", "reset_with_key", "reset")):
+    kinds = tuple(k for k in which if k in ("new_keyed", "reset_with_key"))
+    if kinds:
+        ctx.guard("shape-eval", "blake2 keyed init", lambda: check_blake2_keyed_shapes(ctx, P, kinds))
     for T, blk, leaf in BLAKE2_CTX:
         dyn = leaf is None
         if "new_keyed" in which:
@@ -154,3 +157,99 @@ def check_all_blake2_keyed(ctx, P, which=("new_keyed", "reset_with_key", "reset"
         if "reset" in which:
             ol = leaf if not dyn else "arg1.outlen"
             ctx.guard("reset-complete", T + "::reset", lambda: check_blake2_plain_reset(ctx, P, T + "::reset", ol))
+
+
+# ---------------------------------------------------------------------------------------------- keyed init by shape evaluation
+def check_blake2_keyed_shapes(ctx, P, which=("new_keyed", "reset_with_key"), rule="shape-eval"):
+    """BLAKE2 keyed (re)initialisation for EVERY key length 0..max, key bytes symbolic, the engine constructor / reset kept
+    as a recorded opaque call: the engine is (re)built from (outlen, key.len()), the block buffer is key || zeros (all of
+    it, whatever it held before), buflen is one block iff the key is non-empty.  Independent of how the code spells it
+    (helpers, branches); a pass records the pattern rules' reports as not decided elsewhere."""
+    import re as _re
+    from .. import simd
+    from .arx import Box
+    done = 0
+    for T, blk, leaf in BLAKE2_CTX:
+        dyn = leaf is None
+        mk = 64 if blk == 128 else 32
+        adt = P.adts.get(T.replace("::<BITS>", ""))
+        if adt is None:
+            ctx.lost(rule, T, "context type not found")
+            continue
+        fields = [f["name"] for f in adt["variants"][0]["fields"]]
+        fi = {n: i for i, n in enumerate(fields)}
+        for kind in which:
+            fn = P.fn_opt("%s::%s" % (T, kind))
+            inst = "%s::%s" % (T, kind)
+            if fn is None:
+                ctx.lost(rule, inst, "function not found")
+                continue
+            bad = []
+            n = 0
+            for bits in ((8, 256, mk * 8) if not dyn else (1, 32, mk)):
+                outlen = (bits + 7) // 8 if not dyn else bits
+                for kl in range(mk + 1):
+                    B = simd.TermBank()
+                    key = [B.inp("k[%d]" % i, 8) for i in range(kl)]
+                    M = simd.Machine(P, B, 64, {}, maxsteps=400000)
+                    if not dyn:
+                        M.generics = {"BITS": bits}
+                    ev = []
+
+                    def h_new(m_, f_, c_, a_, ev=ev):
+                        ev.append(("new", a_[0], a_[1]))
+                        return {"_engine": len(ev)}
+
+                    def h_reset(m_, f_, c_, a_, ev=ev):
+                        ev.append(("reset", a_[1], a_[2]))
+                        tgt = a_[0]
+                        while isinstance(tgt, tuple) and tgt and tgt[0] == "lref":
+                            tgt = tgt[1][tgt[2]]
+                        if isinstance(tgt, dict) and "_engine" in tgt:
+                            tgt["_engine"] = 1 if tgt["_engine"] == 0 else -1
+                        return None
+                    M.hooks = [(_re.compile(r"hashing::blake2::Engine[BS]::new$"), h_new), (_re.compile(r"hashing::blake2::Engine[BS]::reset$"), h_reset)]
+                    kref = ("aslice", {i: key[i] for i in range(kl)}, 0, kl)
+                    try:
+                        if kind == "new_keyed":
+                            st = M.call_fn(fn, ([outlen] if dyn else []) + [kref])
+                        else:
+                            st0 = {fi["eng"]: {"_engine": 0}, fi["buf"]: {i: B.inp("stale[%d]" % i, 8) for i in range(blk)}, fi["buflen"]: 77 % (blk + 1)}
+                            if dyn:
+                                st0[fi["outlen"]] = outlen
+                            box = Box(st0)
+                            M.call_fn(fn, [box.ref(), kref])
+                            st = box.v
+                    except (simd.Unsupported, KeyError, IndexError, TypeError, AttributeError, ValueError) as e:
+                        bad.append((bits, kl, "not evaluable: %s: %s" % (type(e).__name__, str(e)[:100])))
+                        break
+                    n += 1
+                    want_ev = [("new" if kind == "new_keyed" else "reset", outlen, kl)]
+                    buf = st[fi["buf"]]
+                    gb = [M.scalar_bits(buf[i], 8) for i in range(blk)]
+                    wb = key + [B.const(0, 8)] * (blk - kl)
+                    what = None
+                    if ev != want_ev:
+                        what = "the engine is (re)initialised with %s, not (outlen %d, key length %d)" % ([e_[1:] for e_ in ev], outlen, kl)
+                    elif not (isinstance(st[fi["eng"]], dict) and st[fi["eng"]].get("_engine") == 1):
+                        what = "the context does not keep the engine it (re)initialised"
+                    elif gb != wb:
+                        k_ = [i for i in range(blk) if gb[i] != wb[i]][0]
+                        what = "buffer byte %d is not %s" % (k_, "key[%d]" % k_ if k_ < kl else "zero (stale or misplaced bytes in the padded key block)")
+                    elif st[fi["buflen"]] != (blk if kl else 0):
+                        what = "buflen = %s for a key of %d bytes" % (st[fi["buflen"]], kl)
+                    elif dyn and st[fi["outlen"]] != outlen:
+                        what = "outlen not kept"
+                    if what:
+                        bad.append((bits, kl, what))
+                        if len(bad) > 2:
+                            break
+                if len(bad) > 2:
+                    break
+            ok = not bad and n == 3 * (mk + 1)
+            ctx.check(ok, rule, inst, "%d (output size, key length 0..%d) shapes: engine from (outlen, key.len()), buffer = key || zeros, buflen = one block iff keyed" % (n, mk),
+                      "%s does not set up the keyed state: (bits, key length, what) %s" % (inst, bad[:3]), where=fn.where(), key="%s:%s" % (rule, inst))
+            if ok:
+                done += 1
+                ctx.subsume("keyed-init:%s" % inst, "%s is decided for every key length by shape evaluation (shape-eval)" % inst)
+    return done
